@@ -179,7 +179,12 @@ func findFuzzyCandidateTerms(ctx context.Context, indexReader index.IndexReader,
 		}()
 		tfd, err := fieldDict.Next()
 		for err == nil && tfd != nil {
-			err = addCandidateTerm(tfd.Term, tfd.EditDistance)
+			// segments written by older zap versions do not report the
+			// edit distance with the dictionary entry; take it from the
+			// automaton so that the boost does not depend on the segment
+			// format
+			_, editDistance := a.MatchAndDistance(tfd.Term)
+			err = addCandidateTerm(tfd.Term, editDistance)
 			if err != nil {
 				return nil, err
 			}
